@@ -13,6 +13,12 @@
 static vrng_t R;
 
 /* ---- truncation ---------------------------------------------------------------------------- */
+/* link-time wrapper (-Wl,--wrap=fclose): when armed, the stream is really closed but the call reports failure, as close(2) does
+ * when a deferred write error (NFS, quota) only surfaces at close time. Armed only around carquet calls. */
+static int FCLOSE_FAIL = 0; static long FCLOSE_FAILED = 0;
+int __real_fclose(FILE*);
+int __wrap_fclose(FILE* f) { int r = __real_fclose(f); if (FCLOSE_FAIL) { FCLOSE_FAILED++; errno = EIO; return EOF; } return r; }
+
 static void trunc_section(const char* path, const char* exempt, long stride, const char* tmpdir) {
     size_t n = 0; uint8_t* orig = rd_slurp(path, &n); if (!orig) exit(2); const char* bn = strrchr(path, '/') ? strrchr(path, '/') + 1 : path;
     uint8_t* ok = calloc(n + 1, 1); FILE* ef = fopen(exempt, "r"); if (ef) { long p; while (fscanf(ef, "%ld", &p) == 1) if (p >= 0 && (size_t)p <= n) ok[p] = 1; fclose(ef); }
@@ -48,6 +54,13 @@ static int write_to_stream(vrng_t* r, const table_t* t, FILE* f, const char** ba
 }
 static int count_fds(void) { int n = 0; DIR* d = opendir("/proc/self/fd"); if (!d) return -1; while (readdir(d)) n++; closedir(d); return n; }
 
+/* write the first `stop` batches of t to a path-based writer, then abort. returns 1 if the file is still there, 0 if gone, -1 if the writer could not be created */
+static int abort_after(const table_t* t, const char* path, int stop) { carquet_error_t err = CARQUET_ERROR_INIT; carquet_schema_t* s = tbl_make_schema(t, &err); carquet_writer_options_t o; tbl_writer_options(t, &o); unlink(path); carquet_writer_t* w = s ? carquet_writer_create(path, s, &o, &err) : NULL; if (!w) { if (s) carquet_schema_free(s); return -1; }
+    int done = 0; for (int g = 0; g < t->nrg && done < stop; g++) { if (g > 0) (void)carquet_writer_new_row_group(w); for (int c = 0; c < t->ncols && done < stop; c++) { const tchunk_t* k = &t->rg[g][c]; const tcol_t* col = &t->cols[c]; int64_t rp = 0, vp = 0; for (int b = 0; b < k->nbatches && done < stop; b++, done++) { int64_t rows = k->batch_rows[b]; int64_t nv = 0; for (int64_t i = 0; i < rows; i++) if (k->def[rp + i] == col->max_def) nv++;
+                void* vals; uint8_t** own = NULL; if (col->type == CARQUET_PHYSICAL_BYTE_ARRAY) { carquet_byte_array_t* a = v_exact((size_t)nv * sizeof *a); own = v_exact((size_t)nv * sizeof(uint8_t*) + 8); for (int64_t i = 0; i < nv; i++) { own[i] = v_exact_copy(k->ba_ptr[vp + i], k->ba_len[vp + i]); a[i].data = own[i]; a[i].length = (int32_t)k->ba_len[vp + i]; } vals = a; } else vals = v_exact_copy(k->fixed + (size_t)vp * t_elem_size(col), (size_t)nv * t_elem_size(col));
+                (void)carquet_writer_write_batch(w, c, vals, rows, col->max_def ? k->def + rp : NULL, NULL); if (own) { for (int64_t i = 0; i < nv; i++) free(own[i]); free(own); } free(vals); rp += rows; vp += nv; } } }
+    carquet_writer_abort(w); carquet_schema_free(s); return access(path, F_OK) == 0 ? 1 : 0; }
+
 static void sink_section(int scale, const char* tmpdir) {
     int ntables = scale >= 2 ? 40 : 6; char key[160];
     for (int ti = 0; ti < ntables; ti++) { tgen_t gp = {3, 40, 0, -1, -1, T_CODECS[ti % 5], (ti % 2) ? 64 : 0, 1 + ti % 2}; vrng_t gr; vrng_seed(&gr, 1000 + (uint64_t)ti * 7 + vrng_u64(&R) % 1000); table_t* t = tbl_generate(&gr, &gp);
@@ -80,13 +93,18 @@ static void sink_section(int scale, const char* tmpdir) {
         { twrite_result_t res; vrng_t w2; vrng_seed(&w2, 42); int created = tbl_write_path(&w2, t, "/dev/full", &res); v_case(v_hash("devfull", 7, (uint64_t)ti)); v_count("dev_full_runs"); if (created && res.all_ok && ref.n > 0) { v_viol("sink-failure:all-calls-OK-but-bytes-missing:path-writer:dev-full", "table=%d codec=%d: every call incl. close returned OK on /dev/full", ti, t->codec); } }
         /* (iii) abort after every prefix of the write history: no file left, no descriptor held */
         { int nb = 0; for (int g = 0; g < t->nrg; g++) for (int c = 0; c < t->ncols; c++) nb += t->rg[g][c].nbatches;
-          for (int stop = 0; stop <= nb; stop++) { int fd0 = count_fds(); carquet_error_t err = CARQUET_ERROR_INIT; carquet_schema_t* s = tbl_make_schema(t, &err); carquet_writer_options_t o; tbl_writer_options(t, &o); unlink(path); carquet_writer_t* w = s ? carquet_writer_create(path, s, &o, &err) : NULL; if (!w) { if (s) carquet_schema_free(s); continue; }
-              int done = 0; for (int g = 0; g < t->nrg && done < stop; g++) { if (g > 0) (void)carquet_writer_new_row_group(w); for (int c = 0; c < t->ncols && done < stop; c++) { const tchunk_t* k = &t->rg[g][c]; const tcol_t* col = &t->cols[c]; int64_t rp = 0, vp = 0; for (int b = 0; b < k->nbatches && done < stop; b++, done++) { int64_t rows = k->batch_rows[b]; int64_t nv = 0; for (int64_t i = 0; i < rows; i++) if (k->def[rp + i] == col->max_def) nv++;
-                          void* vals; uint8_t** own = NULL; if (col->type == CARQUET_PHYSICAL_BYTE_ARRAY) { carquet_byte_array_t* a = v_exact((size_t)nv * sizeof *a); own = v_exact((size_t)nv * sizeof(uint8_t*) + 8); for (int64_t i = 0; i < nv; i++) { own[i] = v_exact_copy(k->ba_ptr[vp + i], k->ba_len[vp + i]); a[i].data = own[i]; a[i].length = (int32_t)k->ba_len[vp + i]; } vals = a; } else vals = v_exact_copy(k->fixed + (size_t)vp * t_elem_size(col), (size_t)nv * t_elem_size(col));
-                          (void)carquet_writer_write_batch(w, c, vals, rows, col->max_def ? k->def + rp : NULL, NULL); if (own) { for (int64_t i = 0; i < nv; i++) free(own[i]); free(own); } free(vals); rp += rows; vp += nv; } } }
-              carquet_writer_abort(w); carquet_schema_free(s); v_case(v_hash(&stop, sizeof stop, (uint64_t)ti * 31 + 9)); v_count("aborts");
-              if (access(path, F_OK) == 0) { v_viol("abort:file-left-behind", "table=%d after %d batches", ti, stop); unlink(path); }
-              int fd1 = count_fds(); if (fd0 >= 0 && fd1 != fd0) v_viol("abort:descriptor-leaked", "table=%d after %d batches: %d -> %d open descriptors", ti, stop, fd0, fd1); } }
+          for (int stop = 0; stop <= nb; stop++) { int fd0 = count_fds(); int r = abort_after(t, path, stop); if (r < 0) continue; v_case(v_hash(&stop, sizeof stop, (uint64_t)ti * 31 + 9)); v_count("aborts");
+              if (r == 1) { v_viol("abort:file-left-behind", "table=%d after %d batches", ti, stop); unlink(path); }
+              int fd1 = count_fds(); if (fd0 >= 0 && fd1 != fd0) v_viol("abort:descriptor-leaked", "table=%d after %d batches: %d -> %d open descriptors", ti, stop, fd0, fd1); }
+          /* (iv) abort while the sink is failing: buffered bytes cannot be flushed (file size limit) or the close itself fails; the file must go all the same */
+          static const int stops_sel[3] = {0, 1, -1}; long lims[5] = {0, 3, 16, (long)ref.n / 2, (long)ref.n > 9 ? (long)ref.n - 9 : 1};
+          for (int si = 0; si < 3; si++) for (int li = 0; li < 5; li++) { int stop = stops_sel[si] < 0 ? nb : stops_sel[si]; if (stop > nb) continue; fflush(stdout); pid_t pid = fork();
+              if (pid == 0) { struct rlimit rl = {(rlim_t)lims[li], (rlim_t)lims[li]}; signal(SIGXFSZ, SIG_IGN); setrlimit(RLIMIT_FSIZE, &rl); int r = abort_after(t, path, stop); _exit(r == 1 ? 12 : r == 0 ? 10 : 13); }
+              int st = 0; waitpid(pid, &st, 0); v_count("aborts_under_file_size_limit"); if (WIFEXITED(st) && WEXITSTATUS(st) == 12) { v_viol("abort:file-left-behind:sink-failing", "table=%d after %d batches under RLIMIT_FSIZE=%ld", ti, stop, lims[li]); } else if (!WIFEXITED(st) || (WEXITSTATUS(st) != 10 && WEXITSTATUS(st) != 13)) v_viol("abort:crashed:sink-failing", "table=%d stop=%d status=%d", ti, stop, st); unlink(path); }
+          for (int si = 0; si < 3; si++) { int stop = stops_sel[si] < 0 ? nb : stops_sel[si]; if (stop > nb) continue; FCLOSE_FAIL = 1; int r = abort_after(t, path, stop); FCLOSE_FAIL = 0; v_count("aborts_with_failing_fclose"); if (r == 1) { v_viol("abort:file-left-behind:fclose-failing", "table=%d after %d batches", ti, stop); unlink(path); } } }
+        /* (v) the close of a path-based writer's stream reports failure after everything was flushed: carquet_writer_close must not say OK */
+        { twrite_result_t res; vrng_t w2; vrng_seed(&w2, 42); unlink(path); FCLOSE_FAIL = 1; long before = FCLOSE_FAILED; int created = tbl_write_path(&w2, t, path, &res); FCLOSE_FAIL = 0; v_case(v_hash("fclosefail", 10, (uint64_t)ti)); if (FCLOSE_FAILED > before) v_count("fclose_failures_injected");
+          if (created && res.all_ok && FCLOSE_FAILED > before) v_viol("sink-failure:all-calls-OK-although-fclose-failed:path-writer", "table=%d codec=%d: the stream's fclose returned EOF/EIO, carquet_writer_close returned OK", ti, t->codec); else if (FCLOSE_FAILED > before) v_count("fclose_failures_reported"); unlink(path); }
         free(ref.p); tbl_free(t); }
     v_sample("sink: %d small tables x {fopencookie write callback failing at every call index (0-return with ENOSPC or EIO / short write; a cookie write function must not return a negative value) under unbuffered, line-buffered and fully-buffered streams of 1 B..1 MiB; path writer under RLIMIT_FSIZE=N for every N; /dev/full; abort after every prefix of the write history}", ntables);
 }
